@@ -45,11 +45,12 @@ CLAIMED.update({
                   'classes, constants, monotonicity and partitioning keys are value-dependent and not decided.'),
     },
     'C30': {
-        'technique': 'static analysis: finite-domain constant propagation over MIR + reference join model; logical/physical sibling tables',
+        'technique': 'static analysis: finite-domain constant propagation over MIR + reference join model; logical/physical sibling tables; CFG extraction of unguarded match arms (sibling agreement of two tables over Expr)',
         'level': ('Static, exhaustive (10 join types x 2 sides): join output nullability — whenever the model can NULL-extend a side '
                   'its fields are forced nullable, in the physical output_join_field and in the logical build_join_schema, and the '
-                  'two agree on every side present in the output. Only this clause of C30 is decided (no data types, no function '
-                  'return types, no runtime batches).'),
+                  'two agree on every side present in the output; and every expression kind that the CASE reachability analysis treats as '
+                  'strict (NULL exactly when a child is NULL; 6 kinds, read off the CFG) has a nullable() that is not constantly true. '
+                  'Only these two clauses of C30 are decided (no data types, no function return types, no runtime batches).'),
     },
 })
 
